@@ -1048,6 +1048,14 @@ impl<W: InnerWriterTrait> ArchiveWriter<'_, W> {
     }
 
     pub fn flush(&mut self) -> io::Result<()> {
+        // Like every other call, refused once the archive is finalized
+        if !matches!(self.state, ArchiveWriterState::OpenedFiles { .. }) {
+            return Err(Error::WrongArchiveWriterState {
+                current_state: format!("{:?}", self.state),
+                expected_state: "ArchiveWriterState::OpenedFiles".to_string(),
+            }
+            .into());
+        }
         self.dest.flush()
     }
 }
